@@ -126,8 +126,14 @@ func c08Mutate(r *Rng, src []byte, toks []c08Tok, exprs [][2]int) ([]byte, strin
 			}
 		case "comment-inline":
 			eds = append(eds, c08Edit{t.off, 0, fmt.Sprintf("// m%d\n", r.Intn(100))})
+			kind = "comment-anywhere"
 		case "comment-own-line":
-			eds = append(eds, c08Edit{t.off, 0, fmt.Sprintf("\n// m%d\n", r.Intn(100))})
+			if strings.Contains(gap, "\n") {
+				eds = append(eds, c08Edit{t.off, 0, fmt.Sprintf("// m%d\n", r.Intn(100))})
+			} else {
+				eds = append(eds, c08Edit{t.off, 0, fmt.Sprintf("\n// m%d\n", r.Intn(100))})
+				kind = "comment-anywhere"
+			}
 		case "comment-eol":
 			if j := strings.Index(gap, "\n"); j >= 0 && !prevIsComment {
 				eds = append(eds, c08Edit{gapStart + j, 0, fmt.Sprintf(" // m%d", r.Intn(100))})
@@ -250,18 +256,30 @@ func c08Mutations(c *Cfg, r *Rng, corpus []c08Input, n int) []c08Input {
 			c.Count("mutation:" + k)
 		}
 		c.Case("mutant:"+string(m), true)
-		out = append(out, c08Input{"mutant(" + kind + ") of " + small[i].origin, m})
+		origin := "mutant(" + kind + ") of " + small[i].origin
+		if strings.Contains(kind, "comment-anywhere") {
+			origin = c08Irregular + origin
+		}
+		out = append(out, c08Input{origin, m})
 	}
 	return out
 }
 
 // ---- generated programs with randomised layout -------------------------------------
 
+// c08Irregular marks inputs in which the generator placed a `//` comment at an arbitrary token
+// boundary (after an opening bracket, inside label / index / call brackets, between an operator
+// and its operand, between a label and its value) rather than on its own line before a
+// declaration or element, or at the end of a line.
+const c08Irregular = "irregular-comment-position: "
+
 type c08Gen struct {
-	r      *Rng
-	sb     strings.Builder
-	ncmt   int
-	indent int
+	r         *Rng
+	sb        strings.Builder
+	ncmt      int
+	indent    int
+	irregular bool // allow comments at arbitrary break points
+	usedIrr   bool
 }
 
 func (g *c08Gen) w(s string) { g.sb.WriteString(s) }
@@ -278,7 +296,14 @@ func (g *c08Gen) sp() {
 
 // brk: a place where a line break (and therefore a comment) is harmless.
 func (g *c08Gen) brk() {
-	switch g.r.Intn(12) {
+	k := g.r.Intn(12)
+	if (k == 2 || k == 3) && !g.irregular {
+		k = 0
+	}
+	if k == 2 || k == 3 {
+		g.usedIrr = true
+	}
+	switch k {
 	case 0:
 		g.w("\n")
 	case 1:
@@ -553,8 +578,8 @@ func (g *c08Gen) decls(depth, n int, inStruct bool) {
 	}
 }
 
-func c08GenProgram(r *Rng) string {
-	g := &c08Gen{r: r}
+func c08GenProgram(r *Rng) (string, bool) {
+	g := &c08Gen{r: r, irregular: r.Chance(1, 4)}
 	if r.Chance(1, 4) {
 		if r.Chance(1, 3) {
 			g.w(g.comment() + "\n")
@@ -571,9 +596,9 @@ func c08GenProgram(r *Rng) string {
 		g.w(Pick(r, []string{"\n", "\n", "\n\n", " " + g.comment() + "\n", "\n\n\n", ", "}))
 	}
 	if r.Chance(1, 3) {
-		return strings.TrimRight(g.sb.String(), "\n ,")
+		return strings.TrimRight(g.sb.String(), "\n ,"), g.usedIrr
 	}
-	return g.sb.String()
+	return g.sb.String(), g.usedIrr
 }
 
 func c08GenPrograms(c *Cfg, r *Rng, n int) []c08Input {
@@ -582,7 +607,7 @@ func c08GenPrograms(c *Cfg, r *Rng, n int) []c08Input {
 	for tries := 0; len(out) < n && tries < n*8; tries++ {
 		rr := r.Sub()
 		seed := rr.s
-		s := c08GenProgram(rr)
+		s, irr := c08GenProgram(rr)
 		if seen[s] {
 			continue
 		}
@@ -593,7 +618,12 @@ func c08GenPrograms(c *Cfg, r *Rng, n int) []c08Input {
 		}
 		c.Case("gen:"+s, strings.Count(s, "\n") > 0)
 		c.Count(fmt.Sprintf("generated-lines:%d", min(strings.Count(s, "\n")/5*5, 50)))
-		out = append(out, c08Input{fmt.Sprintf("generated(seed %d)", seed), []byte(s)})
+		origin := fmt.Sprintf("generated(seed %d)", seed)
+		if irr {
+			origin = c08Irregular + origin
+			c.Count("generated-with-irregular-comments")
+		}
+		out = append(out, c08Input{origin, []byte(s)})
 	}
 	return out
 }
